@@ -54,6 +54,8 @@ type world struct {
 	// carry-over facts for unchanged files: path -> info
 	carry map[string]carryInfo
 	big   int64 // files above this size are never read back in snapshots
+	// synthesised encrypted images by absolute file path
+	encImages map[string]*encImage
 }
 
 type carryInfo struct {
